@@ -33,7 +33,7 @@ def _poly_trend(seg, order):
     return tr
 
 
-C_REC = 8.0     # recurrence + windowing: amplitude error <= C_REC * eps * G * sum|w||x - trend|, G = L/max(|sin w|, 1/L) <= L^2
+C_REC = 16.0     # recurrence + windowing: amplitude error <= C_REC * eps * G * sum|w||x - trend|, G = L/max(|sin w|, 1/L) <= L^2
 C_TREND = 16.0   # trend fit / evaluation: amplitude error <= C_TREND * eps * max(L,8) * max|x_seg| * sum|w|
 
 
